@@ -111,12 +111,15 @@ theorem idxDistinct_cons {l : List Key} {k : Key} (h : IdxDistinct l)
     simp only [List.any_eq_true]; exact ⟨k', hk', by simp [heq]⟩
   simp [this] at hany
 
-/-- the relational monitor implies the list monitor -/
-theorem wfFrom_of_wfR {α} : ∀ (t : List (Ev α)) (l : List Key) (P : Key → Prop),
-    IdxDistinct l → wfR (fun k => k ∈ l) t P → wfFrom l t = true := by
+/-- the relational monitor implies the list monitor, with the same final live set -/
+theorem wfLive_of_wfR {α} : ∀ (t : List (Ev α)) (l : List Key) (P : Key → Prop),
+    IdxDistinct l → wfR (fun k => k ∈ l) t P → ∃ l', wfLive l t = some l' ∧ ∀ k, k ∈ l' ↔ P k := by
   intro t
   induction t with
-  | nil => intros; rfl
+  | nil =>
+    intro l P _ h
+    cases h
+    exact ⟨l, rfl, fun _ => Iff.rfl⟩
   | cons e t ih =>
     intro l P hd h
     cases h with
@@ -128,26 +131,31 @@ theorem wfFrom_of_wfR {α} : ∀ (t : List (Ev α)) (l : List Key) (P : Key → 
           simp only [List.any_eq_true] at hc
           obtain ⟨k', hk', he⟩ := hc
           exact absurd (by simpa using he) (hf k' hk')
-      simp only [wfFrom, wfStep, hany]
+      simp only [wfLive, wfStep, hany]
       refine ih (k :: l) P (idxDistinct_cons hd hany) ?_
       have : (fun k' => k' = k ∨ k' ∈ l) = (fun k' => k' ∈ k :: l) := by
         funext k'; simp
       rw [← this]; exact hr
     | next _ k v _ _ hk hr =>
-      simp only [wfFrom, wfStep, hk, if_true]
+      simp only [wfLive, wfStep, hk, if_true]
       exact ih l P hd hr
     | err _ k e _ _ hk hr =>
-      simp only [wfFrom, wfStep, hk, if_true]
+      simp only [wfLive, wfStep, hk, if_true]
       exact ih l P hd hr
     | fatal _ e _ _ hr =>
-      simp only [wfFrom, wfStep]
+      simp only [wfLive, wfStep]
       exact ih l P hd hr
     | done _ k _ _ hk hr =>
-      simp only [wfFrom, wfStep, hk, if_true]
+      simp only [wfLive, wfStep, hk, if_true]
       refine ih (l.erase k) P (hd.erase k) ?_
       have : (fun k' => k' ≠ k ∧ k' ∈ l) = (fun k' => k' ∈ l.erase k) := by
         funext k'; simp [hd.nodup.mem_erase_iff]
       rw [← this]; exact hr
+
+theorem wfFrom_of_wfR {α} (t : List (Ev α)) (l : List Key) (P : Key → Prop)
+    (hd : IdxDistinct l) (h : wfR (fun k => k ∈ l) t P) : wfFrom l t = true := by
+  obtain ⟨l', h1, _⟩ := wfLive_of_wfR t l P hd h
+  rw [wfFrom_eq, h1]; rfl
 
 /-! ### running the splitter alone; decomposition of `wrap` -/
 
@@ -459,7 +467,8 @@ theorem wrap_sim {α β} {sp : Splitter α} {ls : LSplit α} (sim : SplitSim sp 
       (ws : Key → Option (ls.τ × (Nat → Option L.σ))),
       wfFrom live t = true → NoErr t → IdxDistinct live → NmOK nm →
       sim.Inv live s (tauOf ws) nm → WRel live nm rs ws →
-      (∃ P, wfR (IL nm) ((spRun sp s t).map (·.1)).flatten P) ∧
+      (∃ live' nm' s' ws', wfLive live t = some live' ∧ sim.Inv live' s' (tauOf (σ := L.σ) ws') nm' ∧
+        wfR (IL nm) ((spRun sp s t).map (·.1)).flatten (IL nm')) ∧
       NoErr ((spRun sp s t).map (·.1)).flatten ∧
       (NoFatal t → NoFatal ((spRun sp s t).map (·.1)).flatten) ∧
       glue (runGroups (refStep L) rs ((spRun sp s t).map (·.1))) ((spRun sp s t).map (·.2)) =
@@ -467,8 +476,8 @@ theorem wrap_sim {α β} {sp : Splitter α} {ls : LSplit α} (sim : SplitSim sp 
   intro t
   induction t with
   | nil =>
-    intro live s nm rs ws _ _ _ _ _ _
-    exact ⟨⟨_, .nil _⟩, noErr_nil, fun _ => noFatal_nil, rfl⟩
+    intro live s nm rs ws _ _ _ _ hinv _
+    exact ⟨⟨live, nm, s, ws, rfl, hinv, .nil _⟩, noErr_nil, fun _ => noFatal_nil, rfl⟩
   | cons e t ih =>
     intro live s nm rs ws hwf hne hd hok hinv hrel
     obtain ⟨hne1, hne2⟩ := noErr_cons.mp hne
@@ -478,10 +487,10 @@ theorem wrap_sim {α β} {sp : Splitter α} {ls : LSplit α} (sim : SplitSim sp 
     | fatal x =>
       simp only [wfStep] at hwf
       have hst := sim.fatal s x
-      obtain ⟨⟨P, h1⟩, h2, hf, h3⟩ := ih live s nm rs ws hwf hne2 hd hok hinv hrel
+      obtain ⟨⟨l1, n1, s1', w1', hl1, hi1, h1⟩, h2, hf, h3⟩ := ih live s nm rs ws hwf hne2 hd hok hinv hrel
       simp only [spRun, hst, List.map_cons, List.flatten_cons, runGroups, runGroup, refStep, glue, runSteps,
         List.append_nil, List.map_nil]
-      refine ⟨⟨P, ?_⟩, ?_, ?_, ?_⟩
+      refine ⟨⟨l1, n1, s1', w1', by simpa [wfLive, wfStep] using hl1, hi1, ?_⟩, ?_, ?_, ?_⟩
       · exact .fatal _ _ _ _ h1
       · exact noErr_append.mpr ⟨noErr_cons.mpr ⟨rfl, noErr_nil⟩, h2⟩
       · intro hnf; have := (noFatal_cons.mp hnf).1; simp [Ev.isFatal] at this
@@ -511,13 +520,14 @@ theorem wrap_sim {α β} {sp : Splitter α} {ls : LSplit α} (sim : SplitSim sp 
             have hn : k0 ∉ live := fun h => hk0 (List.mem_cons_of_mem _ h)
             simp [upd, h0, hrel.dead k0 hn]
         rw [← tauOf_upd ws k ls.init (fun _ => none)] at hinv'
-        obtain ⟨⟨P, h1⟩, h2, hf, h3⟩ := ih (k :: live) _ nm rs _ (by simpa using hwf) hne2
+        obtain ⟨⟨l1, n1, s1', w1', hl1, hi1, h1⟩, h2, hf, h3⟩ := ih (k :: live) _ nm rs _ (by simpa using hwf) hne2
           (idxDistinct_cons hd hany) hok hinv' hrel'
         have e1 : (sp.step s (.create k)).2.1 = [] := by rw [hst]
         have e2 : (sp.step s (.create k)).2.2 = [.create k] := by rw [hst]
         simp only [spRun, List.map_cons, List.flatten_cons, e1, e2, runGroups, runGroup, glue, runSteps,
           List.nil_append, refStep]
-        refine ⟨⟨P, h1⟩, h2, fun hnf => hf (noFatal_cons.mp hnf).2, ?_⟩
+        refine ⟨⟨l1, n1, s1', w1', by simpa [wfLive, wfStep, hany] using hl1, hi1, h1⟩, h2,
+          fun hnf => hf (noFatal_cons.mp hnf).2, ?_⟩
         rw [h3]; rfl
     | next k x =>
       by_cases hk : k ∈ live
@@ -551,10 +561,10 @@ theorem wrap_sim {α β} {sp : Splitter α} {ls : LSplit α} (sim : SplitSim sp 
             have h0 : k0 ≠ k := fun h => hk0 (h ▸ hk)
             simp [upd, h0, hrel.dead k0 hk0]
         rw [← tauOf_upd ws k _ (runGroup (cmdStep L) inner (ls.next t0 x).2).1] at hinv'
-        obtain ⟨⟨P, h1⟩, h2, hf, h3⟩ := ih live _ nm' _ _ hwf hne2 hd hok' hinv' hrel'
+        obtain ⟨⟨l1, n1, s1', w1', hl1, hi1, h1⟩, h2, hf, h3⟩ := ih live _ nm' _ _ hwf hne2 hd hok' hinv' hrel'
         simp only [spRun, List.map_cons, List.flatten_cons, hout, runGroups, glue, runSteps, List.map_nil,
           List.append_nil, refStep, hws, localWrap]
-        refine ⟨⟨P, wfR_append w1 h1⟩, noErr_append.mpr ⟨w3.1, h2⟩,
+        refine ⟨⟨l1, n1, s1', w1', by simpa [wfLive, wfStep, hk] using hl1, hi1, wfR_append w1 h1⟩, noErr_append.mpr ⟨w3.1, h2⟩,
           fun hnf => noFatal_append.mpr ⟨w3.2, hf (noFatal_cons.mp hnf).2⟩, ?_⟩
         rw [h3, s1]; rfl
       · simp [wfStep, hk] at hwf
@@ -591,9 +601,9 @@ theorem wrap_sim {α β} {sp : Splitter α} {ls : LSplit α} (sim : SplitSim sp 
             · have hn : k0 ∉ live := fun h => hk0 ((hmem_erase k0).mpr ⟨h0, h⟩)
               simp [upd, h0, hrel.dead k0 hn]
         rw [← tauOf_upd_none ws k] at hinv'
-        obtain ⟨⟨P, h1⟩, h2, hf, h3⟩ := ih (live.erase k) _ nm' _ _ (by simpa using hwf) hne2 (hd.erase k) hok' hinv' hrel'
+        obtain ⟨⟨l1, n1, s1', w1', hl1, hi1, h1⟩, h2, hf, h3⟩ := ih (live.erase k) _ nm' _ _ (by simpa using hwf) hne2 (hd.erase k) hok' hinv' hrel'
         simp only [spRun, List.map_cons, List.flatten_cons, hout, runGroups, glue, runSteps, refStep, hws, localWrap]
-        refine ⟨⟨P, wfR_append w1 h1⟩, noErr_append.mpr ⟨w3.1, h2⟩,
+        refine ⟨⟨l1, n1, s1', w1', by simpa [wfLive, wfStep, hk] using hl1, hi1, wfR_append w1 h1⟩, noErr_append.mpr ⟨w3.1, h2⟩,
           fun hnf => noFatal_append.mpr ⟨w3.2, hf (noFatal_cons.mp hnf).2⟩, ?_⟩
         rw [h3, s1]; rfl
       · simp [wfStep, hk] at hwf
@@ -608,14 +618,14 @@ theorem wrap_impl {α β} {sp : Splitter α} {ls : LSplit α} (sim : SplitSim sp
   have hrel0 : WRel (σ := L.σ) (τ := ls.τ) [] (fun _ _ => none) (fun _ => none) (fun _ => none) :=
     ⟨fun _ hk => by simp at hk, fun _ _ => rfl⟩
   have hok0 : NmOK (fun _ _ => none) := ⟨fun _ _ _ h => by simp at h, fun _ _ _ _ _ _ h => by simp at h⟩
-  obtain ⟨⟨P, w1⟩, w2, wf, w3⟩ := wrap_sim sim L t [] sp.init (fun _ _ => none) (fun _ => none) (fun _ => none)
+  obtain ⟨⟨l1, n1, s1', w1', _, _, w1⟩, w2, wf, w3⟩ := wrap_sim sim L t [] sp.init (fun _ _ => none) (fun _ => none) (fun _ => none)
     ht hne' List.Pairwise.nil hok0 (by
       have : tauOf (σ := L.σ) (τ := ls.τ) (fun _ => none) = fun _ => none := by funext k; rfl
       rw [this]; exact sim.init) hrel0
   have hIL : IL (fun _ _ => none) = (fun k => k ∈ ([] : List Key)) := by
     funext a; apply propext; simp [IL]
   rw [hIL] at w1
-  have hwf : WF ((spRun sp sp.init t).map (·.1)).flatten := wfFrom_of_wfR _ [] P List.Pairwise.nil w1
+  have hwf : WF ((spRun sp sp.init t).map (·.1)).flatten := wfFrom_of_wfR _ [] _ List.Pairwise.nil w1
   have e := h _ hwf (fun _ => ⟨w2, wf (hcl rfl).2⟩)
   rw [runGroups_congr Q.step (refStep L) _ Q.init (fun _ => none) e]
   exact w3
